@@ -263,28 +263,31 @@ pub fn run(ctx: &mut Ctx) -> (&'static str, String, bool) {
             let ping = [k[0], 3, 9, 3];
             for (label, stream) in [("ka", k.to_vec()), ("ping-ka-ping", [&ping[..], &k[..], &ping[..]].concat()), ("ka-ka-ping", [&k[..], &k[..], &ping[..]].concat())] {
                 for (wp, wk, fl) in [(1usize, 1usize, 0usize), (1, 3, 0), (2, 2, 0), (0, 0, 0), (0, 0, 2), (1, 2, 3), (0, 0, 1)] {
-                    jobs.push((compressed, label, stream.clone(), wp, wk, fl));
+                    // after a drop the caller: reads again / writes a packet first / performs a handshake first
+                    for wad in 0..3usize {
+                        jobs.push((compressed, label, stream.clone(), wp, wk, fl, wad));
+                    }
                 }
             }
         }
         let parts: Vec<Part> = jobs
             .par_iter()
             .enumerate()
-            .map(|(ji, (compressed, label, stream, wp, wk, fl))| {
+            .map(|(ji, (compressed, label, stream, wp, wk, fl, wad))| {
                 let rt = runtime();
                 let _g = rt.enter();
                 let mut p = Part::new();
-                if miri && (ji as u64 % nshards != shard || ji >= 8) {
+                if miri && (ji as u64 % nshards != shard || ji >= 24) {
                     return p;
                 }
                 let mut wplan = vec![];
-                for _ in 0..32 {
+                for _ in 0..120 {
                     for _ in 0..*wp {
                         wplan.push(WAct::Pending);
                     }
                     wplan.push(WAct::Accept(if *wk == 0 { usize::MAX } else { *wk }));
                 }
-                let base = Session { compressed: *compressed, stream: stream.clone(), read_plan: vec![RAct::Pending], default_read: 0, write_plan: wplan, default_write: 0, drops: BTreeSet::new(), write_after_drop: false, flush_plan: if *fl == 0 { None } else { Some((0..200).map(|i| i % fl != fl - 1).collect()) }, verify_version: false, handshake_after_drop: false, user_writes_keepalive: false, label: format!("{label}-w{wp}x{wk}-f{fl}") };
+                let base = Session { compressed: *compressed, stream: stream.clone(), read_plan: vec![RAct::Pending], default_read: 0, write_plan: wplan, default_write: 0, drops: BTreeSet::new(), write_after_drop: *wad > 0, flush_plan: if *fl == 0 { None } else { Some((0..400).map(|i| i % fl != fl - 1).collect()) }, verify_version: false, handshake_after_drop: *wad == 2, user_writes_keepalive: false, label: format!("{label}-w{wp}x{wk}-f{fl}-{}", ["read-again", "write-first", "handshake-first"][*wad]) };
                 let total = run_session(&base).polls;
                 let (frames, _) = ref_frames(stream, *compressed);
                 let kas = frames.iter().filter(|f| is_keepalive_frame(f)).count();
@@ -302,10 +305,10 @@ pub fn run(ctx: &mut Ctx) -> (&'static str, String, bool) {
                     let replay = json!({"mode": mode_name(*compressed), "label": s.label, "stream": hex(stream), "drops": s.drops.iter().take(64).collect::<Vec<_>>(), "outgoing": hex(&o.written), "suspended_on": o.suspended_on});
                     if o.runaway {
                         p.violation("C07/tokio/cancelled-read/runaway", format!("[{}] session did not finish after the read was dropped", s.label), replay);
-                    } else if !rest.is_empty() || replies != kas || out_frames.len() != replies || o.staged_left > 0 {
+                    } else if !rest.is_empty() || replies != kas || out_frames.len() != replies + o.user_frames || o.staged_left > 0 {
                         p.violation(
                             "C07/tokio/cancelled-read/reply-count",
-                            format!("{} [{}]: {kas} keep-alive(s) received, read dropped after poll(s) {:?}: outgoing bytes {} hold {replies} whole reply frame(s) and {} stray byte(s); {} byte(s) accepted but never flushed", mode_name(*compressed), s.label, s.drops.iter().take(8).collect::<Vec<_>>(), hex(&o.written), rest.len(), o.staged_left),
+                            format!("{} [{}]: {kas} keep-alive(s) received, read dropped after poll(s) {:?}: outgoing bytes {} hold {replies} whole reply frame(s), {} other frame(s) for {} completed user write(s) and {} stray byte(s); {} byte(s) accepted but never flushed", mode_name(*compressed), s.label, s.drops.iter().take(8).collect::<Vec<_>>(), hex(&o.written[..o.written.len().min(200)]), out_frames.len() - replies, o.user_frames, rest.len(), o.staged_left),
                             replay,
                         );
                     } else if handed != kas {
